@@ -10,10 +10,16 @@ package main
 import (
 	"bytes"
 	"context"
+	"encoding/json"
 	"fmt"
 	"math/rand"
 	"os"
+	"os/exec"
 	"runtime"
+	"strconv"
+	"strings"
+	"sync"
+	"sync/atomic"
 	"time"
 
 	"github.com/paulmach/osm"
@@ -153,6 +159,10 @@ func buildCase(d *pbfgen.FileDesc, cfgs []config, procsOf func(k int) []int, cla
 		return nil, false, fmt.Errorf("unfiltered scan failed: %s", es)
 	}
 	fc.Unfiltered, fc.UStatus, fc.UErr = un, st, es
+	if externalRuns != nil { // runs observed elsewhere (forced-overlap class: in a child process)
+		fc.Runs = externalRuns
+		cfgs = nil
+	}
 	for k := range cfgs {
 		cf := cfgs[k]
 		for pi, p := range procsOf(k) {
@@ -247,6 +257,153 @@ func buildCase(d *pbfgen.FileDesc, cfgs []config, procsOf func(k int) []int, cla
 	}
 	c.Trivial = !nontrivial
 	return c, applied, nil
+}
+
+// externalRuns, when non-nil, replaces the scans of the next buildCase call.
+var externalRuns []run
+
+// ---- overlapping decodes, FORCED (as harness/cmd/c02 does for the order property): procs = 2, the
+// FilterNode callback of the first node of block 0 holds its decoder inside Decode until the other
+// decoder has run the callback for the last node of block 1 (or 300 ms have passed).  The filtered
+// result must be exactly the kept subsequence while a filter blocks.  Runs in a child process and
+// before everything else: decoders that share state may crash instead of answering, and a crash must
+// be an observation, not the end of the harness.
+func overlapFile(seed int64) *pbfgen.FileDesc {
+	rng := wire.Rng(seed)
+	d := &pbfgen.FileDesc{Header: &pbfgen.Header{Required: []string{"OsmSchema-V0.6", "DenseNodes"}}}
+	for blk := int64(0); blk < 6; blk++ {
+		b := &pbfgen.Block{Strings: []string{""}}
+		b.Zlib = rng.Intn(2) == 0
+		dn := &pbfgen.Dense{HasInfo: true, Cols: pbfgen.InfoFields{Version: true, UserSid: true}, HasKeysVals: true}
+		n := 3 + rng.Intn(4)
+		for k := int64(0); k < int64(n); k++ {
+			nd := pbfgen.DenseNode{ID: 1000*blk + k + 1, Lat: 10*blk + k, Lon: -k, Info: pbfgen.Info{Version: int32(1 + rng.Intn(5)), UserSid: b.Sid(fmt.Sprintf("user%d", blk)), Visible: true}}
+			for t := rng.Intn(3); t > 0; t-- {
+				nd.Tags = append(nd.Tags, b.Tag(fmt.Sprintf("k%d", t), fmt.Sprintf("block%d", blk)))
+			}
+			dn.Nodes = append(dn.Nodes, nd)
+		}
+		b.Groups = []*pbfgen.Group{{Items: []pbfgen.Item{{Dense: dn}}}}
+		d.Blocks = append(d.Blocks, b)
+	}
+	return d
+}
+
+func overlapCfg(seed int64) config {
+	return config{Node: pbfwire.Pred{Code: 2, A: 2, B: seed & 1}}
+}
+
+type overlapResult struct {
+	Objs   []pbfwire.Obs `json:"objs"`
+	Status int           `json:"status"`
+	Err    string        `json:"err"`
+	Stable bool          `json:"stable"`
+}
+
+func overlapChild(seed int64) {
+	d := overlapFile(seed)
+	cf := overlapCfg(seed)
+	data, _ := pbfgen.Encode(d)
+	first := d.Blocks[0].Groups[0].Items[0].Dense.Nodes[0].ID
+	b1 := d.Blocks[1].Groups[0].Items[0].Dense.Nodes
+	lastOfB := b1[len(b1)-1].ID
+	gate := make(chan struct{})
+	var once sync.Once
+	var bDone int32
+	sc := osmpbf.New(context.Background(), bytes.NewReader(data), 2)
+	sc.FilterNode = func(n *osm.Node) bool {
+		id := int64(n.ID)
+		if id == first {
+			select {
+			case <-gate:
+			case <-time.After(300 * time.Millisecond):
+			}
+		}
+		if id == lastOfB && atomic.CompareAndSwapInt32(&bDone, 0, 1) {
+			go func() { time.Sleep(2 * time.Millisecond); once.Do(func() { close(gate) }) }()
+		}
+		return cf.Node.Eval(id, n.Version, len(n.Tags))
+	}
+	var res overlapResult
+	var kept []osm.Object
+	for sc.Scan() {
+		o := sc.Object()
+		kept = append(kept, o)
+		res.Objs = append(res.Objs, pbfwire.Snapshot(o))
+	}
+	res.Stable = true
+	for i, o := range kept {
+		again := pbfwire.Snapshot(o)
+		if !again.Equal(&res.Objs[i]) {
+			res.Stable = false
+		}
+	}
+	if err := sc.Err(); err != nil {
+		res.Status, res.Err = 1, err.Error()
+	}
+	sc.Close()
+	b, _ := json.Marshal(res)
+	fmt.Println("OVERLAP-RESULT " + string(b))
+}
+
+// overlapCase runs the child and builds an ordinary C08 case from what it printed (judged in Coq like
+// every other run: model = observed, observed = kept subsequence of the unfiltered scan).  bad = the
+// child crashed, hung, or answered something else than the kept subsequence.
+func overlapCase(seed int64, mutate func(fc *fileCase) bool) (*wire.Case, bool, error) {
+	d := overlapFile(seed)
+	cf := overlapCfg(seed)
+	cmd := exec.Command(os.Args[0], "--overlap-child", strconv.FormatInt(seed, 10))
+	var out, errb bytes.Buffer
+	cmd.Stdout, cmd.Stderr = &out, &errb
+	done := make(chan error, 1)
+	if err := cmd.Start(); err != nil {
+		return nil, false, err
+	}
+	go func() { done <- cmd.Wait() }()
+	var runErr error
+	select {
+	case runErr = <-done:
+	case <-time.After(20 * time.Second):
+		cmd.Process.Kill()
+		runErr = fmt.Errorf("child did not finish within 20 s")
+	}
+	var res overlapResult
+	got := false
+	for _, l := range strings.Split(out.String(), "\n") {
+		if strings.HasPrefix(l, "OVERLAP-RESULT ") {
+			got = json.Unmarshal([]byte(strings.TrimPrefix(l, "OVERLAP-RESULT ")), &res) == nil
+		}
+	}
+	r := run{Cfg: cf, Procs: []int{2}, Cons: []string{"passive; FilterNode holds the decoder of block 0 inside Decode until the other decoder has finished block 1 (child process)"},
+		Status: res.Status, Err: res.Err, Objs: res.Objs, Stable: res.Stable}
+	oracle := ""
+	if !got {
+		head := strings.SplitN(strings.TrimSpace(errb.String()), "\n", 2)[0]
+		r.Status, r.Stable, r.Objs = 2, true, nil // crash: reported to Coq as a panic of the scan
+		r.Err = fmt.Sprintf("%v: %s", runErr, head)
+		oracle = "the scan crashed or hung with two decoders inside Decode at the same time (filter blocking): " + r.Err
+	}
+	externalRuns = []run{r}
+	c, _, err := buildCase(d, nil, nil, "overlap", mutate)
+	externalRuns = nil
+	if err != nil {
+		return nil, false, err
+	}
+	if oracle != "" {
+		c.OracleFail = oracle
+	}
+	// bad: not the kept subsequence of the file's elements
+	var want []int64
+	for _, e := range pbfgen.Elements(d) {
+		if cf.Node.Eval(e.ID, int(e.Version), len(e.Tags)) {
+			want = append(want, e.ID)
+		}
+	}
+	bad := !got || res.Status != 0 || !res.Stable || len(res.Objs) != len(want)
+	for i := 0; !bad && i < len(want); i++ {
+		bad = res.Objs[i].ID != want[i]
+	}
+	return c, bad, nil
 }
 
 func hasPlain(b *pbfgen.Block) bool {
@@ -374,9 +531,14 @@ var canaries = []canary{
 }
 
 func main() {
+	if len(os.Args) == 3 && os.Args[1] == "--overlap-child" {
+		seed, _ := strconv.ParseInt(os.Args[2], 10, 64)
+		overlapChild(seed)
+		return
+	}
 	a := wire.ParseArgs()
 	w := wire.NewWriter("C08", a.Seed, a.Tier)
-	w.Rule = "one case per generated PBF file (pbfgen.RandomFile, denser groups than C01) scanned unfiltered and under 4-8 configurations (all 8 skip-flag combinations cycling, predicates accept-all/reject-all/id mod k/has-tag/even version/hashed id per element type) x decoder counts from {1,2,3,7,16}, with deep snapshots at return time re-compared at end of scan (every second run: the consumer overwrites the slice entries of each object it is handed and appends to them, and the final comparison is against the state it left); files carry first-class zero values and member types outside the enum, every 5th is a headerless restart stream of 2-6 non-empty blocks; predicates also id-range kept/rejected; plus pbfgen.DirectedCorpus under each file's own configuration (incl. plain-node groups, shipped as trees without description); the first configuration of every file is assigned 10 ms (and two scheduler yields) after osmpbf.New returned, for every decoder count of the file; non-trivial = some run returns a proper non-empty subsequence"
+	w.Rule = "one case per generated PBF file (pbfgen.RandomFile, denser groups than C01) scanned unfiltered and under 4-8 configurations (all 8 skip-flag combinations cycling, predicates accept-all/reject-all/id mod k/has-tag/even version/hashed id per element type) x decoder counts from {1,2,3,7,16}, with deep snapshots at return time re-compared at end of scan (every second run: the consumer overwrites the slice entries of each object it is handed and appends to them, and the final comparison is against the state it left); files carry first-class zero values and member types outside the enum, every 5th is a headerless restart stream of 2-6 non-empty blocks; predicates also id-range kept/rejected; plus pbfgen.DirectedCorpus under each file's own configuration (incl. plain-node groups, shipped as trees without description); first of all three forced-overlap cases (procs 2, child process: the FilterNode callback of the first node of block 0 holds its decoder inside Decode until the other decoder has finished block 1; a crash is an observation); the first configuration of every file is assigned 10 ms (and two scheduler yields) after osmpbf.New returned, for every decoder count of the file; non-trivial = some run returns a proper non-empty subsequence"
 	rng := wire.Rng(a.Seed)
 	nfiles, ncfg, nprocs := int(40*a.Scale), 4, 2
 	if a.Tier == "thorough" {
@@ -385,6 +547,40 @@ func main() {
 	fail := func(err error) {
 		fmt.Fprintln(os.Stderr, "c08:", err)
 		os.Exit(3)
+	}
+	// forced overlapping decodes first, in child processes (see overlapChild).  If two decoders cannot be
+	// inside Decode at the same time the in-process classes below would crash this process and lose
+	// the observation: they are skipped then, the overlap cases (and two canaries made of them) are
+	// the whole run.
+	unsafeDecoders := false
+	for i := 0; i < 3; i++ {
+		c, bad, err := overlapCase(a.Seed*53+int64(i), nil)
+		if err != nil {
+			fail(err)
+		}
+		w.Add(c)
+		w.Count("overlap")
+		if bad {
+			unsafeDecoders = true
+		}
+	}
+	if unsafeDecoders {
+		for _, cn := range canaries[len(canaries)-2:] { // "unstable", "error-status"
+			c, _, err := overlapCase(a.Seed*53, func(fc *fileCase) bool {
+				fc.Note = "CANARY: observation deliberately corrupted: " + cn.name
+				return cn.f(fc)
+			})
+			if err != nil {
+				fail(err)
+			}
+			c.Canary, c.OracleFail, c.Class = 1, "", "canary:"+cn.name
+			w.Add(c)
+		}
+		w.Notes = append(w.Notes, "overlapping decodes misbehave while a filter blocks: the in-process classes were skipped")
+		if err := w.Flush(a.Out, "Verif.C08.Check", 6); err != nil {
+			fail(err)
+		}
+		return
 	}
 	type job struct {
 		d    *pbfgen.FileDesc
